@@ -45,7 +45,7 @@ fn payload_plan(rng: &mut Rng, n: usize, for_blocking_bridge: bool) -> Plan {
         1 => Fallback::Chunk(1),
         _ => Fallback::Chunk(rng.range(1, 70_000)),
     };
-    Plan { steps, fallback, fail_at: None, thread_wake: for_blocking_bridge }
+    Plan { steps, fallback, fail_at: None, fail_once: false, thread_wake: for_blocking_bridge }
 }
 
 pub(crate) fn c08_case(rep: &mut Report, seed: u64, idx: u64, tier: &str) {
